@@ -77,6 +77,25 @@ MuxServersLeak(doc, req, obs) ==
    /\ HasOverride(doc) /\ MuxAsPinned(doc, req, obs)
    /\ Gist(MuxObs(doc, req, FALSE, TRUE)) # Gist(CurMuxObs(doc, req))
 
+(* F-C09-9: gorillamux makeServers replaces a port variable by its default and installs a *)
+(* varsUpdater that writes name -> default into the map of path parameters AFTER the      *)
+(* match: a variable of the matched path template that has the port variable's name is    *)
+(* overwritten, so the returned parameters no longer reproduce the request path.  The     *)
+(* observation is the pinned model's, and the same route with the template's own value    *)
+(* (portClobbers off) satisfies the contract.                                             *)
+MuxPortClobbers(doc, req, obs, failed) ==
+   /\ obs.k = "route" /\ failed = {"route_does_not_reproduce_path"}
+   /\ MuxAsPinned(doc, req, obs)
+   /\ MuxObsP(doc, req, FALSE, TRUE, FALSE) # CurMuxObs(doc, req)
+   /\ Failed(doc, req, MuxObsP(doc, req, FALSE, TRUE, FALSE)) = {}
+
+(* F-C09-10: gorilla/mux refuses a route whose host template and path template share a    *)
+(* variable name ("duplicated route variable"), so gorillamux.NewRouter fails for a valid *)
+(* document in which a server's host variable is named like a path parameter of a path    *)
+(* offered under it.  The class is exactly the pinned model's prediction.                 *)
+BuildClass(doc, router, built) ==
+   IF router = "g" /\ built = "error" /\ ~CurMuxBuilds(doc) THEN "mux_newrouter_duplicate_variable" ELSE "none"
+
 (* the legacy router did what its model of the current code does (route or route error) *)
 LegacyAsModel(doc, req, obs) ==
    LET p == CurLegacyObs(doc, req) IN
@@ -96,17 +115,28 @@ LegacyAsModel(doc, req, obs) ==
 (*    split into three segments, the literal template "/a%20b" never matches "/a%20b".   *)
 LegacyUrlView(doc, req, obs) ==
    /\ obs.k \in {"route", "rerr"} /\ LegacyAsModel(doc, req, obs)
-   /\ LegacyObs(doc, req, FALSE, FALSE, TRUE, TRUE) # CurLegacyObs(doc, req)
+   /\ LegacyObsH(doc, req, FALSE, FALSE, TRUE, TRUE, FALSE) # CurLegacyObs(doc, req)
 LegacyFragment(doc, req, obs) == Len(doc.servers) > 0 /\ FragGlued(req.u) /\ LegacyUrlView(doc, req, obs)
 LegacyDecoded(doc, req, obs) ==
    /\ Len(doc.servers) = 0 /\ \E i \in 1..Len(req.u.path) : IsEnc(req.u.path[i])
    /\ LegacyUrlView(doc, req, obs)
+
+(* F-C09-11: the legacy router matches Request.URL only.  A request in server form (the    *)
+(* form every handler of a net/http server receives: path in URL, host in Request.Host,    *)
+(* https as Request.TLS) is matched as the relative URL of its path, so under absolute      *)
+(* servers it is never found.  The observation is a route error, it is what the model of   *)
+(* the pinned code predicts, and the model that sees the request's host answers otherwise. *)
+LegacyIgnoresHost(doc, req, obs) ==
+   /\ UForm(req.u) = "server" /\ obs.k = "rerr"
+   /\ Gist(obs) = Gist(CurLegacyObs(doc, req))
+   /\ Gist(LegacyObsH(doc, req, FALSE, FALSE, TRUE, TRUE, TRUE)) # Gist(CurLegacyObs(doc, req))
 
 (* F-C09-6: the legacy router never looks at path-level servers.  The observation is     *)
 (* correct (or deviates in one of the other legacy classes) for the document without     *)
 (* its path-level servers, and the document has some.                                    *)
 LegacyClass(doc, req, obs) ==
    IF LegacyUnknownMethodPanic(doc, req, obs) THEN "legacy_unknown_method_panic"
+   ELSE IF LegacyIgnoresHost(doc, req, obs) THEN "legacy_ignores_request_host"
    ELSE IF LegacyFragment(doc, req, obs) THEN "legacy_fragment_glued_to_path"
    ELSE IF LegacyDecoded(doc, req, obs) THEN "legacy_noserver_decoded_path"
    ELSE IF obs.k = "route" /\ HasTempl(doc, obs.path) /\ LegacyEmptyBinding(doc, req, obs) THEN "legacy_empty_binding"
@@ -122,5 +152,6 @@ Class(doc, req, router, obs, failed) ==
        ELSE LegacyClass(Flat(doc), req, obs))
    ELSE IF router = "g" /\ obs.k = "rerr" /\ MuxMethodShadow(doc, req, obs, failed) THEN "mux_method_mismatch_shadows_later_template"
    ELSE IF router = "g" /\ obs.k \in {"route", "rerr"} /\ MuxServersLeak(doc, req, obs) THEN "mux_path_servers_leak"
+   ELSE IF router = "g" /\ obs.k = "route" /\ MuxPortClobbers(doc, req, obs, failed) THEN "mux_port_variable_overwrites_path_parameter"
    ELSE "none"
 =============================================================================
